@@ -30,8 +30,9 @@ class Tier:
         self.n_layout = int(os.environ.get("VERIF_C10_LAYOUT", 2 if q else 7))   # besides layout 0
         self.n_hist = int(os.environ.get("VERIF_C10_HIST", 28 if q else 420))
         self.hist_len = int(os.environ.get("VERIF_C10_HISTLEN", 420 if q else 700))
-        self.n_files = int(os.environ.get("VERIF_C10_FILES", 6 if q else 60))
-        self.files_len = 14 if q else 30
+        self.sibling_fraction = float(os.environ.get("VERIF_C10_SIBLINGS", 0.35 if q else 1.0))
+        self.n_files = int(os.environ.get("VERIF_C10_FILES", 12 if q else 120))
+        self.files_len = 12 if q else 24
         self.n_selftest = 8 if q else 64
         self.n_fresh = 6 if q else 40
         self.max_minimise = int(os.environ.get("VERIF_C10_MAXMIN", 10 if q else 40))
@@ -124,6 +125,19 @@ class Runner:
             corpus = [c for c in corpus if r.chance(self.tier.corpus_fraction)]
         enabled = sorted(workload.FAMILIES)
         gen, fam_of = workload.generate(self.seed, self.tier.n_generated, enabled)
+        # mechanical siblings (same names, different meaning / order) of a seeded sample
+        rs = Rng(self.seed, "c10", "siblings")
+        sib = {}
+        frac = self.tier.sibling_fraction
+        for pid, code in list(corpus) + sorted(gen.items()):
+            if rs.chance(frac):
+                cands = workload.siblings(pid, code)
+                if cands:
+                    spid, scode = rs.choice(cands)
+                    sib[spid] = scode
+                    fam_of[spid] = fam_of.get(pid) or ["snippet:" + pid.split("::")[0]]
+        gen.update(sib)
+        self.stats["programs_siblings"] = len(sib)
         # programs that would talk to each other through CPython's typing alias cache are not
         # unrelated (DESIGN.md section 3); decided statically, from the sources alone
         conflicts = workload.typing_cache_conflicts(list(corpus) + sorted(gen.items()))
@@ -194,7 +208,7 @@ class Runner:
             picked.sort()
         elif mode == "reverse":
             picked.sort(reverse=True)
-        p_re = r.choice([0.0, 0.03, 0.1])
+        p_re = r.choice([0.05, 0.15, 0.3, 1.0])
         p_gc = r.choice([0.0, 0.02, 0.08])
         p_junk = r.choice([0.0, 0.02, 0.05])
         ops = []
@@ -205,8 +219,10 @@ class Runner:
             ops.append({"op": "check", "pid": p})
             done.append(p)
             if r.chance(p_re):
-                q = p if r.chance(0.5) else r.choice(done)
+                q = p if r.chance(0.7) else r.choice(done)
                 ops.append({"op": "recheck", "pid": q})
+                if r.chance(0.3):
+                    ops.append({"op": "recheck", "pid": q})
             if r.chance(p_gc):
                 ops.append({"op": "gc", "mode": "collect"})
             if r.chance(p_junk):
@@ -217,6 +233,14 @@ class Runner:
         r = Rng(self.seed, "c10", "files", idx)
         h = r.choice([0] + hashes) if hashes else 0
         pool = [p for p in self.order if oracle.file_route_ok(self.programs[p])]
+        if r.chance(0.6):
+            # dense group: files from one or two families, so that same-named classes/functions with
+            # different meaning meet in one invocation
+            fams = sorted({f for p in pool for f in self.family_of[p] if not f.startswith("snippet:")})
+            chosen = set(r.sample(fams, min(len(fams), r.randint(1, 2))))
+            dense = [p for p in pool if chosen & set(self.family_of[p])]
+            if len(dense) >= 4:
+                pool = dense
         picked = r.sample(pool, min(self.tier.files_len, len(pool)))
         root = os.path.join(self.scratch, "files%d" % idx)
         jobs = []
@@ -500,7 +524,7 @@ class Runner:
 
     def side_spec(self, case, side):
         s = case[side]
-        return make_spec(case["programs"], s["ops"], s["layout"]), s["hash"]
+        return make_spec(case["programs"], [dict(op) for op in s["ops"]], s["layout"]), s["hash"]
 
     def eval_cases(self, cases, use_ann=True):
         """-> list of diff-or-None.  Identical (spec, hash) worlds are executed once."""
@@ -511,6 +535,11 @@ class Runner:
             for side in ("a", "b"):
                 spec, h = self.side_spec(c, side)
                 k = hashlib.sha256((json.dumps(spec, sort_keys=True) + "|%d" % h).encode()).hexdigest()
+                # candidate worlds run in parallel: every distinct spec gets its own scratch tree
+                # (two worlds sharing one would delete each other's files)
+                for op in spec["ops"]:
+                    if "root" in op:
+                        op["root"] = os.path.join(self.scratch, "w" + k[:20])
                 if k not in self.world_memo:
                     todo[k] = (spec, h)
                 pair.append(k)
